@@ -73,5 +73,21 @@ func genWiring(fc *fileCache) {
 	g.fact("beginBlockerOrder", "List String", strList(bargs), "app/app.go SetOrderBeginBlockers")
 	g.fact("beginBlockerOrder_found", "Bool", boolStr(ok), "")
 	g.found = append(g.found, "beginBlockerOrder_found")
+	// C19: the lock check of a VM call carrying value reads the spendable amount of the denomination the VM moves
+	sp, ok := callArgs(fc, "x/cvm/keeper/keeper.go", "Tx", "k.bk.SpendableCoins(ctx, caller).AmountOf")
+	g.fact("cvmSpendableDenom", "List String", strList(sp), "x/cvm/keeper/keeper.go Tx: k.bk.SpendableCoins(ctx, caller).AmountOf(…)")
+	g.fact("cvmSpendableDenom_found", "Bool", boolStr(ok), "")
+	g.found = append(g.found, "cvmSpendableDenom_found")
+	// C02 / C11 / C09: every module account is a blocked recipient (the body of ModuleAccountAddrs, statement by statement)
+	var body []string
+	fd := fc.fn("app/app.go", "ModuleAccountAddrs")
+	if fd != nil {
+		for _, st := range fd.Body.List {
+			body = append(body, strings.Join(strings.Fields(src(fc.fset, st)), " "))
+		}
+	}
+	g.fact("moduleAccountAddrsBody", "List String", strList(body), "app/app.go ModuleAccountAddrs, one string per statement")
+	g.fact("moduleAccountAddrs_found", "Bool", boolStr(fd != nil), "")
+	g.found = append(g.found, "moduleAccountAddrs_found")
 	g.write("Wiring", nil)
 }
